@@ -916,6 +916,20 @@ func runVestCase(ta *TestApp, seed uint64, idx int, rep *Report, profile string)
 		if op.kind == "time" {
 			ctx = ctx.WithBlockTime(op.newTime)
 			res = opResult{ok: true, amount: bi(0)}
+		} else if op.kind != "delegate" && rng.Chance(7) {
+			// the message runs on a branch of the state that is dropped whatever the handler returns (a later message of the same
+			// transaction failed, or the transaction was only simulated): for the chain — and the model, which sees an operation
+			// without effect — nothing happened
+			cc, _ := ctx.CacheContext()
+			dres := e.deliver(cc, op.run)
+			if dres.panic_ != "" {
+				rep.Panics = append(rep.Panics, fmt.Sprintf("case %d step %d %s (on a dropped branch): %s", idx, s, op.term, dres.panic_))
+			}
+			if dres.ok {
+				rep.Count("dropped_branch.after_success." + op.kind)
+			}
+			op = vestOp{kind: "time", newTime: ctx.BlockTime(), term: fmt.Sprintf("OTime %s", zI(ctx.BlockTime().UnixNano()))}
+			res = opResult{ok: true, amount: bi(0)}
 		} else {
 			res = e.deliver(ctx, op.run)
 		}
